@@ -104,7 +104,7 @@ func TestC02Shard(t *testing.T) {
 		defer func() { _ = b.Close() }()
 		w := drv.NewWorld(cat, b, ep)
 		w.NoDeleteContainer = true
-		applyKnown(rec, w)
+		applyKnown(w)
 		metricsKnown, parentKnown := ev.IsOpen("C02", fpMetrics), ev.IsOpen("C02", fpMetricsParent)
 		cc := &caseCtx{rec: rec, w: w, bound: uint64(cat.NC*uni.NObjects + 1)}
 		defer finish(rec, w)
